@@ -5,6 +5,8 @@ CONSTANTS
   NExtra = 2
   Rounds = 2
   MaxPolls = 100000
+  TimedLoops = {FALSE}
+  MaxIntr = 100000
   Mutation = "none"
   RECORD = TRUE
 INVARIANTS NotAccepted Fifo PerSenderOrder RepliesInOrder
